@@ -1457,6 +1457,7 @@ int state_sync(struct snapraid_state* state, block_off_t blockstart, block_off_t
 	struct snapraid_parity_handle parity_handle[LEV_MAX];
 	unsigned unrecoverable_error;
 	unsigned l;
+	unsigned s;
 	int skip_sync = 0;
 
 	msg_progress("Initializing...\n");
@@ -1497,6 +1498,16 @@ int state_sync(struct snapraid_state* state, block_off_t blockstart, block_off_t
 
 		/* number of block in the parity file */
 		parity_size(&parity_handle[l], &out_size);
+
+		/* parity_size() reports the size recorded in the content file, */
+		/* but a file shorter than that cannot contain all the expected parity */
+		for (s = 0; s < parity_handle[l].split_mac; ++s) {
+			struct snapraid_split_handle* split = &parity_handle[l].split_map[s];
+
+			if (split->st.st_size < split->size)
+				out_size -= split->size - split->st.st_size;
+		}
+
 		parityblocks = out_size / state->block_size;
 
 		/* if the file is too small */
